@@ -195,6 +195,6 @@ func TestVerif_C12(t *testing.T) {
 			}
 			return def
 		},
-		CoqImports: []string{"YF.C12_Check"}, CoqType: "bt_case", CoqChecker: vc12Flags, CoqCase: vc12CoqCase, MaxCoq: 1200,
+		CoqImports: []string{"YF.C12_Check"}, CoqType: "bt_case", CoqChecker: vc12Flags, CoqCase: vc12CoqCase, MaxCoq: 500,
 	})
 }
